@@ -61,7 +61,7 @@ func protoAggs(as []*seqproxyapi.Aggregation) string {
 	for _, a := range as {
 		var bs []string
 		for _, b := range a.Buckets {
-			bs = append(bs, fmt.Sprintf("%s:%v", vh.Hex([]byte(b.Key)), b.Value))
+			bs = append(bs, fmt.Sprintf("%s:%v:%v", vh.Hex([]byte(b.Key)), b.Value, b.Quantiles))
 		}
 		sort.Strings(bs)
 		res = append(res, fmt.Sprintf("ne=%d[%s]", a.NotExists, strings.Join(bs, ";")))
@@ -141,6 +141,16 @@ func apihChild() {
 		aggs = []*seqproxyapi.AggQuery{{GroupBy: "k8s_pod", Func: seqproxyapi.AggFunc_AGG_FUNC_COUNT}}
 	case "countboth": // a client filling the legacy `field` and `group_by` at once, with different values
 		aggs = []*seqproxyapi.AggQuery{{Field: "k8s_pod", GroupBy: "service", Func: seqproxyapi.AggFunc_AGG_FUNC_COUNT}}
+	case "maxby", "minby", "avgby", "quantby":
+		fn := map[string]seqproxyapi.AggFunc{"maxby": seqproxyapi.AggFunc_AGG_FUNC_MAX, "minby": seqproxyapi.AggFunc_AGG_FUNC_MIN,
+			"avgby": seqproxyapi.AggFunc_AGG_FUNC_AVG, "quantby": seqproxyapi.AggFunc_AGG_FUNC_QUANTILE}[m["agg"]]
+		aq := &seqproxyapi.AggQuery{Field: "request_duration", GroupBy: "service", Func: fn}
+		if m["agg"] == "quantby" {
+			aq.Quantiles = []float64{0.5, 1}
+		}
+		aggs = []*seqproxyapi.AggQuery{aq}
+	case "uniq":
+		aggs = []*seqproxyapi.AggQuery{{GroupBy: "k8s_pod", Func: seqproxyapi.AggFunc_AGG_FUNC_UNIQUE}}
 	case "sumby":
 		aggs = []*seqproxyapi.AggQuery{{Field: "request_duration", GroupBy: "service", Func: seqproxyapi.AggFunc_AGG_FUNC_SUM}}
 	}
@@ -242,7 +252,7 @@ func genAPIH(g gen, o vh.Opts) []string {
 		}
 		lines = append(lines, fmt.Sprintf("asyncapih docs=%s layout=%s lastActive=%s qx=%s from=%d to=%d interval=%d order=%d agg=%s size=%d offset=%d",
 			strings.Join(docs, ","), strings.Join(lay, ";"), b(g.r.Bool()), vh.Hex([]byte(query)), from, to,
-			[]int{0, 5, 10, 250}[g.r.Intn(4)], g.r.Intn(2), []string{"none", "count", "pods", "countboth", "sumby"}[g.r.Intn(5)], []int{0, 1, 3, 5, 100}[g.r.Intn(5)], []int{0, 0, 0, 1, 2}[g.r.Intn(5)]))
+			[]int{0, 5, 10, 250}[g.r.Intn(4)], g.r.Intn(2), []string{"none", "count", "pods", "countboth", "sumby", "maxby", "minby", "avgby", "quantby", "uniq", "maxby"}[g.r.Intn(11)], []int{0, 1, 3, 5, 100}[g.r.Intn(5)], []int{0, 0, 0, 1, 2}[g.r.Intn(5)]))
 	}
 	return lines
 }
